@@ -119,10 +119,11 @@ class Session:
 
 
 def run_random_session(cfg: Config, monitors: list[Monitor], seed: int, nsteps: int,
-                       weights=None, refusal_rate=1.0, stop_on_violation=True) -> Session:
+                       weights=None, refusal_rate=1.0, stop_on_violation=True,
+                       opgen=None) -> Session:
     rng = random.Random(seed)
     sess = Session(cfg, monitors)
-    gen = OpGen(cfg, rng, weights=weights, refusal_rate=refusal_rate)
+    gen = (opgen or OpGen)(cfg, rng, weights=weights, refusal_rate=refusal_rate)
     if sess.violations and stop_on_violation:
         return sess
     for _ in range(nsteps):
